@@ -612,6 +612,12 @@ func init() {
 			js = append(js, mk(sprintf("c17.striped.par.pre%d", p), lossyPkg, "ZZ_C17_StripedPar", map[string]int{"maxlen": 4, "pre": p},
 				func(b *Bounds) { b.Unwind = 20; b.Preempt = pre; b.Race = true; b.MaxPaths = 2000000; b.MaxWallS = 1500 }))
 		}
+		gp, gn := 2, 3
+		if tier == "thorough" {
+			gp, gn = 3, 4
+		}
+		js = append(js, mk(sprintf("c17.striped.grow.producers%d.pre%d", gn, gp), lossyPkg, "ZZ_C17_StripedGrow", map[string]int{"producers": gn},
+			func(b *Bounds) { b.Unwind = 20; b.Preempt = gp; b.Race = true; b.MaxPaths = 20000000; b.MaxWallS = 3000 }))
 		for _, j := range js {
 			j.Prefer = "bits"
 		}
